@@ -2,6 +2,7 @@ import GeffModel.Proto
 import GeffModel.MockEdges
 import GeffModel.MockData
 import Gen.MockEdges
+import Gen.MockData
 open Lean Geff Geff.Proto Geff.MockData
 
 def pairsJson (l : List (Int × Int)) : Json :=
@@ -82,9 +83,29 @@ def getParams (j : Json) : Except String Params := do
            t := ← getB j "t" true, z := ← getB j "z" true, y := ← getB j "y" true, x := ← getB j "x" true,
            vl := ← getB j "vl" false, ms := ← getB j "ms" false }
 
-def mockJson (r : Outcome (Written × MockData.Geff)) : Json :=
-  outcomeJson (fun (wg : Written × MockData.Geff) =>
-    Json.mkObj [("mem", geffJson wg.2), ("store_is_mem", Json.bool (wg.1.geff == wg.2))]) r
+/-- a model result read as a result of the generated code (T24): the store written once, from `w.geff` -/
+def embedW : Outcome (Written × MockData.Geff) → Outcome (PyDoMock.MemStore × MockData.Geff)
+  | .ok (w, g) => .ok (⟨[w.geff]⟩, g)
+  | .valueError => .valueError
+  | .other e => .other e
+
+/-- adds `"gen_agrees"`: the SOURCE-TRANSLATED function (Gen.MockData, translator T24) returns exactly
+what the hand-written model returns on this request -/
+def withAgrees (j : Json) (agrees : Bool) : Json :=
+  (j.setObjVal! "gen_agrees" (Json.bool agrees)).setObjVal! "gen_translationOk" (Json.bool Gen.MockData.translationOk)
+
+def mockJson (r : Outcome (Written × MockData.Geff)) (gen : Outcome (PyDoMock.MemStore × MockData.Geff)) : Json :=
+  withAgrees (outcomeJson (fun (wg : Written × MockData.Geff) =>
+    Json.mkObj [("mem", geffJson wg.2), ("store_is_mem", Json.bool (wg.1.geff == wg.2))]) r)
+    (decide (gen = embedW r))
+
+def genDummy (ok : Bool) (p : Params) : Outcome MockData.Geff :=
+  Gen.MockData.createDummyInMemGeff ok p.idDtype ⟨p.posDtype, p.timeDtype⟩ p.directed p.numNodes p.numEdges
+    p.extraNode p.extraEdge p.t p.z p.y p.x p.vl p.ms
+
+def genMock (ok : Bool) (p : Params) : Outcome (PyDoMock.MemStore × MockData.Geff) :=
+  Gen.MockData.createMockGeff ok p.idDtype ⟨p.posDtype, p.timeDtype⟩ p.directed p.numNodes p.numEdges
+    p.extraNode p.extraEdge p.t p.z p.y p.x p.vl p.ms
 
 /-- requests
   {"op":"gen","directed":b,"n":N,"m":M}   -> the TRANSLATED generator `Gen.MockEdges.gen` and the reference
@@ -117,9 +138,16 @@ def handle (j : Json) : Except String Json := do
     let h ← (← j.getObjVal? "helper").getStr?
     let ok ← getB j "vlen_ok" false
     match h with
-    | "dummy" => return outcomeJson (fun g => Json.mkObj [("mem", geffJson g)]) (createDummyInMemGeff ok (← getParams j))
-    | "mock" => return mockJson (createMockGeff ok (← getParams j))
-    | "empty" => return mockJson (createEmptyGeff ok (← getB j "directed" false))
+    | "dummy" =>
+      let p ← getParams j
+      let r := createDummyInMemGeff ok p
+      return withAgrees (outcomeJson (fun g => Json.mkObj [("mem", geffJson g)]) r) (decide (genDummy ok p = r))
+    | "mock" =>
+      let p ← getParams j
+      return mockJson (createMockGeff ok p) (genMock ok p)
+    | "empty" =>
+      let d ← getB j "directed" false
+      return mockJson (createEmptyGeff ok d) (Gen.MockData.createEmptyGeff ok d)
     | _ =>
       let directed ← getB j "directed" false
       let n ← match j.getObjVal? "n" with
@@ -129,9 +157,9 @@ def handle (j : Json) : Except String Json := do
         | .ok v => v.getNat?
         | .error _ => pure 15
       match h with
-      | "simple_2d" => return mockJson (createSimple2dGeff ok n m directed)
-      | "simple_3d" => return mockJson (createSimple3dGeff ok n m directed)
-      | "simple_temporal" => return mockJson (createSimpleTemporalGeff ok n m directed)
+      | "simple_2d" => return mockJson (createSimple2dGeff ok n m directed) (Gen.MockData.createSimple2dGeff ok n m directed)
+      | "simple_3d" => return mockJson (createSimple3dGeff ok n m directed) (Gen.MockData.createSimple3dGeff ok n m directed)
+      | "simple_temporal" => return mockJson (createSimpleTemporalGeff ok n m directed) (Gen.MockData.createSimpleTemporalGeff ok n m directed)
       | _ => throw s!"unknown helper {h}"
   | _ => throw s!"unknown op {op}"
 
